@@ -93,6 +93,7 @@ def driver_env(lib, extra=None):
     env["PYTHONPATH"] = lib + os.pathsep + os.path.dirname(os.path.dirname(os.path.abspath(__file__)))
     env[GUARD] = "1"
     env["PYTHONHASHSEED"] = "0"
+    env["PYTHONFAULTHANDLER"] = "1"
     env.pop("PYTHONSTARTUP", None)
     if extra:
         env.update(extra)
